@@ -271,6 +271,14 @@ def coq_closure(vfile):
 class Check:
     def __init__(self, pid, level="proof"):
         self.pid = pid
+        # one run of a given check at a time on this machine: the translators write coq/Gen/*.v for the tree
+        # the run is pointed at, and a concurrent run of the same check on another tree would read them
+        try:
+            import fcntl
+            self._lockfh = open("/var/tmp/verif-check-%s.ilock" % pid, "w")
+            fcntl.flock(self._lockfh, fcntl.LOCK_EX)
+        except OSError:
+            self._lockfh = None
         self.tier = os.environ.get("VERIF_TIER", "quick")
         for i, a in enumerate(sys.argv):
             if a == "--tier" and i + 1 < len(sys.argv):
